@@ -53,6 +53,7 @@ unsafe impl Sync for LzVal {}
 impl LzVal {
     fn new(k: usize) -> LzVal {
         LZ_INIT[k].fetch_add(1, SeqCst);
+        LZ_INIT_ORDER.lock().unwrap().push(k);
         let cell = loom::cell::UnsafeCell::new(0);
         // non-atomic write inside init: every access must be ordered after it
         cell.with_mut(|p| unsafe { *p = 7 });
@@ -62,6 +63,7 @@ impl LzVal {
 impl Drop for LzVal {
     fn drop(&mut self) {
         LZ_DROP[self.k].fetch_add(1, SeqCst);
+        LZ_DROP_ORDER.lock().unwrap().push(self.k);
     }
 }
 
@@ -71,6 +73,10 @@ loom::thread_local! {
 }
 pub static LZ2_LIVE: AtomicUsize = AtomicUsize::new(0);
 pub static LZ2_INIT: AtomicUsize = AtomicUsize::new(0);
+/// order in which the two plain lazy statics were initialised / dropped in the current iteration
+pub static LZ_INIT_ORDER: Mutex<Vec<usize>> = Mutex::new(Vec::new());
+pub static LZ_DROP_ORDER: Mutex<Vec<usize>> = Mutex::new(Vec::new());
+pub const LZ_ORDER: &str = "lazy statics dropped in an order that is not this iteration's initialisation order";
 pub const LZ_TWICE: &str = "lazy static initialised twice in one execution (its initialiser contains a scheduling point)";
 pub struct LzSlow {
     cell: loom::cell::UnsafeCell<usize>,
@@ -213,6 +219,13 @@ pub fn run_loom(p: &StProg, iter_cap: usize) -> SRes {
             if e.len() > 20 {
                 return;
             }
+            // what an iteration leaves behind is a function of that iteration alone: its lazy statics are dropped in the
+            // order in which IT initialised them, whatever earlier iterations did
+            let io = std::mem::take(&mut *LZ_INIT_ORDER.lock().unwrap());
+            let dord = std::mem::take(&mut *LZ_DROP_ORDER.lock().unwrap());
+            if io != dord && !e.iter().any(|x| x.starts_with(LZ_ORDER)) {
+                e.push(format!("{}: iteration {} initialised {:?} and dropped {:?}", LZ_ORDER, it, io, dord));
+            }
             // "initialised at most once per execution" also holds for an initialiser that can be pre-empted
             let inits = LZ2_INIT.swap(0, SeqCst);
             if inits > 1 && !e.iter().any(|x| x.starts_with(LZ_TWICE)) {
@@ -241,6 +254,8 @@ pub fn run_loom(p: &StProg, iter_cap: usize) -> SRes {
     let (e2, i2, ev2) = (errs.clone(), iters.clone(), events.clone());
     SLOW_DROP.store(p.slow_drop, SeqCst);
     LZ2_INIT.store(0, SeqCst);
+    LZ_INIT_ORDER.lock().unwrap().clear();
+    LZ_DROP_ORDER.lock().unwrap().clear();
     let res = std::panic::catch_unwind(std::panic::AssertUnwindSafe(|| {
         let mut b = loom::model::Builder::new();
         b.max_branches = 5000;
@@ -321,6 +336,14 @@ fn core() -> &'static Vec<StProg> {
             }
         }
         let mut v = Vec::new();
+        // two lazy statics whose first users race (the atomics make both orders explorable): the initialisation order -
+        // and with it the drop order - differs from iteration to iteration
+        for join_first in [false, true] {
+            v.push(StProg { threads: vec![vec![StOp::AStore, StOp::Lz(0)], vec![StOp::ALoad, StOp::Lz(1)]], join_first, slow_drop: false });
+            v.push(StProg { threads: vec![vec![StOp::ALoad, StOp::Lz(0), StOp::Lz(1)], vec![StOp::AStore, StOp::Lz(1), StOp::Lz(0)]], join_first, slow_drop: false });
+            v.push(StProg { threads: vec![vec![StOp::ALoad], vec![StOp::AStore, StOp::Lz(0)], vec![StOp::ALoad, StOp::Lz(1)]], join_first, slow_drop: false });
+            v.push(StProg { threads: vec![vec![StOp::AStore, StOp::Lz(1), StOp::Tl(0)], vec![StOp::ALoad, StOp::Lz(0)], vec![StOp::ALoad, StOp::Lz(1)]], join_first, slow_drop: false });
+        }
         for a in &lists {
             for b in &lists {
                 if !b.is_empty() {
@@ -389,7 +412,10 @@ pub fn judge(p: &StProg, rec: &mut Rec, tier: u8) {
     for e in r.errors.iter().filter(|e| e.starts_with(LZ_TWICE)).take(1) {
         rec.v("static_semantics", "lazy_static_init_twice_when_initialiser_is_preempted", e.clone());
     }
-    for e in r.errors.iter().filter(|e| !e.starts_with(LZ_TWICE)).take(3) {
+    for e in r.errors.iter().filter(|e| e.starts_with(LZ_ORDER)).take(1) {
+        rec.v("iteration_state_leaks", "", e.clone());
+    }
+    for e in r.errors.iter().filter(|e| !e.starts_with(LZ_TWICE) && !e.starts_with(LZ_ORDER)).take(3) {
         rec.v("static_semantics", "", e.clone());
     }
     rec.nontrivial = p.threads.iter().flatten().any(|o| !matches!(o, StOp::AStore | StOp::ALoad));
